@@ -734,6 +734,7 @@ func (cx *qctx) compareFind(got []cand, counts map[string]int, ratios map[string
 		truth[[2]int32{c.s, c.e}] = c.d
 	}
 	inGot := map[[2]int32]bool{}
+	resort := false
 	for _, g := range got {
 		inGot[[2]int32{g.s, g.e}] = true
 		td, ok := truth[[2]int32{g.s, g.e}]
@@ -758,12 +759,13 @@ func (cx *qctx) compareFind(got []cand, counts map[string]int, ratios map[string
 			// the target may stop early: true ≤ reported ≤ true + MaxError, and within the limit
 			var bound s1.ChordAngle
 			var okb bool
+			slack := 2 * updateMinDistanceMaxError(td) // the other rounding path of the same primitive
 			if f {
 				bound = td.Sub(me)
-				okb = g.d <= td && float64(g.d) >= float64(bound)*(1-1e-13)-1e-300 && g.d > L
+				okb = float64(g.d) <= float64(td)+slack && float64(g.d) >= float64(bound)*(1-1e-13)-1e-300 && g.d > L
 			} else {
 				bound = td.Add(me)
-				okb = g.d >= td && float64(g.d) <= float64(bound)*(1+1e-13)+1e-300 && g.d < L
+				okb = float64(g.d) >= float64(td)-slack && float64(g.d) <= float64(bound)*(1+1e-13)+1e-300 && g.d < L
 			}
 			if okb {
 				continue
@@ -775,11 +777,20 @@ func (cx *qctx) compareFind(got []cand, counts map[string]int, ratios map[string
 		// its documented error, counted.
 		if (k == 1 || isIdx) && math.Abs(float64(g.d)-float64(td)) <= 2*updateMinDistanceMaxError(td) {
 			counts["tolerated.rounding-path"]++
+			for i := range all {
+				if all[i].s == g.s && all[i].e == g.e {
+					all[i].d = g.d
+				}
+			}
+			resort = true
 			continue
 		}
 		return &failure{kind: "wrong-distance", msg: fmt.Sprintf("result (%d,%d) has distance %.17g, scan gives %.17g", g.s, g.e, float64(g.d), float64(td))}
 	}
 
+	if resort {
+		sortCands(f, all)
+	}
 	want := len(all)
 	if want > k {
 		want = k
@@ -820,7 +831,7 @@ func (cx *qctx) compareFind(got []cand, counts map[string]int, ratios map[string
 				if bad && !(math.Abs(float64(g.d)-float64(td)) <= 2*updateMinDistanceMaxError(td)) {
 					return &failure{kind: "error-bound", absent: absentOf(head), msg: fmt.Sprintf("result %d has distance %.17g; the %d-th best true distance is %.17g, MaxError %.3g allows up to %.17g", i, float64(g.d), i, float64(td), o.MaxError, float64(bound))}
 				}
-				if td != 0 && td != 4 && me > 0 && bound != 0 && bound != 4 {
+				if td != 0 && td != 4 && me >= 1e-9 && bound != 0 && bound != 4 {
 					r := math.Abs(float64(g.d)-float64(td)) / math.Abs(float64(bound)-float64(td)+1e-300)
 					if r > ratios["approx_excess/MaxError"] && !math.IsInf(r, 0) && !math.IsNaN(r) {
 						ratios["approx_excess/MaxError"] = r
@@ -1051,7 +1062,15 @@ func (cx *qctx) classify(fl *failure) {
 						return true
 					}
 					if n := len(cx.out.res); n > 0 && n == cx.o.k() {
-						return !better(cx.furthest, rd, cx.out.res[n-1].d)
+						// both the entry and the last reported one may be MaxError off
+						me2 := s1.ChordAngle(cx.o.MaxError)
+						shifted := rd
+						if cx.furthest {
+							shifted = s1.ChordAngle(float64(rd.Sub(me2).Sub(me2)) * (1 - 1e-13))
+						} else {
+							shifted = s1.ChordAngle(float64(rd.Add(me2).Add(me2)) * (1 + 1e-13))
+						}
+						return !better(cx.furthest, shifted, cx.out.res[n-1].d)
 					}
 					return false
 				}
@@ -1075,16 +1094,31 @@ func (cx *qctx) classify(fl *failure) {
 			if cx.distMode {
 				// Distance(): the value must lie between the true optimum and the
 				// optimum over the target edges the truncated covering still reaches
-				var bt, br s1.ChordAngle
-				ht, hr := false, false
-				for _, es := range cx.sd.edges {
-					for _, edge := range es {
+				// (if the searched index is truncated as well, only over its reached edges)
+				var bt, br, brA s1.ChordAngle
+				ht, hr, hrA := false, false, false
+				cx.sd.info()
+				for si, es := range cx.sd.edges {
+					for ei, edge := range es {
 						if td, ok := cx.tg.idxDist(edge, cx.furthest, false); ok && (!ht || better(cx.furthest, td, bt)) {
 							bt, ht = td, true
 						}
-						if rd, ok := cx.tg.idxDist(edge, cx.furthest, true); ok && (!hr || better(cx.furthest, rd, br)) {
-							br, hr = rd, true
+						if rd, ok := cx.tg.idxDist(edge, cx.furthest, true); ok {
+							if !hr || better(cx.furthest, rd, br) {
+								br, hr = rd, true
+							}
+							if !cx.sd.edgeUnreach[[2]int32{int32(si), int32(ei)}] && (!hrA || better(cx.furthest, rd, brA)) {
+								brA, hrA = rd, true
+							}
 						}
+					}
+				}
+				if optimized && cx.sd.anyUnreach {
+					// the weaker of the two restricted optima bounds what can be reported
+					if !hrA {
+						hr = false
+					} else if hr && better(cx.furthest, br, brA) {
+						br = brA
 					}
 				}
 				me := s1.ChordAngle(cx.o.MaxError)
@@ -1337,12 +1371,12 @@ func checkFind(c findCase) ev.Outcome {
 
 func init() {
 	ev.Define("find_closest", ev.Options{
-		Rule: "index of 0..12 shapes of all seven shape types (star loops, nested-ring polygons, polylines, lax variants, points; 0..200 edges, 1/3 of the cases exactly on/next to the 25/26 and 30/31 thresholds; placed on 1,2,3,4,6 faces or as one large region), 1..4 targets (point/edge incl. degenerate/cell of any level; on vertices, on edges, inside polygons, antipodal, far), 1..4 option sets each (MaxResults 1,2,3,10,∞; limit ∞, 0, tiny, absolute, or the r-th true distance ±1 ulp; MaxError 0 or 1e-14..4; interiors; brute force). Oracle: own scan of every edge with the exported point/edge/cell primitives and the same limit, exact parity containment from a construction-known point for interiors; equality of the sorted list (MaxError 0), order-statistics bound (MaxError>0). Non-trivial = the optimized branch ran on an index whose covering has >=3 top-level cells, or MaxError>0 with MaxResults>1.",
-		Quick: 24000, Thorough: 1200000}, genFind(false, 200, 2500), checkFind)
+		Rule:  "index of 0..12 shapes of all seven shape types (star loops, nested-ring polygons, polylines, lax variants, points; 0..200 edges, up to 2500 in a quarter of the thorough cases; 1/4 of the cases exactly on/next to the 25/26 and 30/31 thresholds; clusters down to 1e-9 rad so that index cells reach the leaf level; placed on 1,2,3,4,6 faces or as one large region), 1..4 targets (point/edge incl. degenerate/cell of any level; on vertices, on edges, inside polygons, antipodal, far, a quarter circle from a vertex, at the pole of a cell side, on an axis with denormal other components), 1..4 option sets each (MaxResults 1,2,3,10,∞; limit ∞, 0, tiny, absolute, or the r-th true distance ±1 ulp; MaxError 0 or 1e-14..4; interiors; brute force). Oracle: own scan of every edge with the exported point/edge/cell primitives and the same limit, exact parity containment from a construction-known point for interiors; equality of the sorted list (MaxError 0), order-statistics bound (MaxError>0). Non-trivial = the optimized branch ran on an index whose covering has >=3 top-level cells, or MaxError>0 with MaxResults>1.",
+		Quick: 40000, Thorough: 1000000}, genFind(false, 200, 2500), checkFind)
 	ev.Define("find_furthest", ev.Options{
 		Rule:  "as find_closest for NewFurthestEdgeQuery (distances are maxima, limit is a lower bound, interiors mean the polygon contains the antipode of the target's representative point; half of the probes are antipodes of indexed geometry).",
-		Quick: 16000, Thorough: 800000}, genFind(true, 200, 2500), checkFind)
+		Quick: 28000, Thorough: 700000}, genFind(true, 200, 2500), checkFind)
 	ev.Define("find_index_target", ev.Options{
 		Rule:  "closest and furthest with a second index as the target (1..5 shapes, 1..60 edges, either drawn independently or placed about probes of the indexed geometry). Oracle: per indexed edge the best edge pair over all target edges (zero/π when the edge midpoint/its antipode lies in a target polygon), interiors from the first vertex of every target chain. MaxError>0: true ≤ reported ≤ true+MaxError per entry and per rank. Non-trivial as find_closest.",
-		Quick: 5000, Thorough: 200000}, genFindIndexTarget, checkFind)
+		Quick: 8000, Thorough: 170000}, genFindIndexTarget, checkFind)
 }
